@@ -224,13 +224,22 @@ func toInt32(value Value) int32 {
 		return value
 	}
 
-	floatValue := value.float64()
+	return int32(floatToUint32(value.float64()))
+}
+
+// floatToUint32 is steps 2-4 of ECMA 262: 9.5 and 9.6: the integer part of the number
+// modulo 2**32. The remainder is taken on the float64, where it is exact, because
+// converting a float64 outside the int64 range to int64 is not defined by Go.
+func floatToUint32(floatValue float64) uint32 {
 	if math.IsNaN(floatValue) || math.IsInf(floatValue, 0) || floatValue == 0 {
 		return 0
 	}
 
-	// Convert to int64 before int32 to force correct wrapping.
-	return int32(int64(floatValue))
+	remainder := math.Mod(math.Trunc(floatValue), 1<<32)
+	if remainder < 0 {
+		remainder += 1 << 32
+	}
+	return uint32(remainder)
 }
 
 func toUint32(value Value) uint32 {
@@ -247,13 +256,7 @@ func toUint32(value Value) uint32 {
 		return value
 	}
 
-	floatValue := value.float64()
-	if math.IsNaN(floatValue) || math.IsInf(floatValue, 0) || floatValue == 0 {
-		return 0
-	}
-
-	// Convert to int64 before uint32 to force correct wrapping.
-	return uint32(int64(floatValue))
+	return floatToUint32(value.float64())
 }
 
 // ECMA 262 - 6.0 - 7.1.8.
@@ -267,13 +270,8 @@ func toUint16(value Value) uint16 {
 		return value
 	}
 
-	floatValue := value.float64()
-	if math.IsNaN(floatValue) || math.IsInf(floatValue, 0) || floatValue == 0 {
-		return 0
-	}
-
-	// Convert to int64 before uint16 to force correct wrapping.
-	return uint16(int64(floatValue))
+	// 2**16 divides 2**32, so the low 16 bits of the value modulo 2**32 are the value modulo 2**16.
+	return uint16(floatToUint32(value.float64()))
 }
 
 // toIntSign returns sign of a number converted to -1, 0 ,1.
